@@ -136,6 +136,11 @@ func runLifeProfile(l *Life, profile string, n, steps int) {
 			p.Syn = true
 			l.ReadStress(&p, 8, steps, fmt.Sprintf("%s-%d", profile, i))
 			continue
+		case "vecstress":
+			p = VecProfile()
+			p.MinDocs, p.MaxDocs = 3, 12
+			l.ReadStress(&p, 6, steps, fmt.Sprintf("readstress-vec-%d", i))
+			continue
 		case "buildseq":
 			l.BuildSeqScenario(steps, fmt.Sprintf("%s-%d", profile, i))
 			continue
@@ -149,6 +154,10 @@ func runLifeProfile(l *Life, profile string, n, steps int) {
 			p = VecProfile()
 			if i%5 == 4 {
 				l.VecChainScenario(fmt.Sprintf("%s-chain-%d", profile, i))
+				continue
+			}
+			if i%10 == 3 {
+				l.VecThresholdScenario(fmt.Sprintf("%s-threshold-%d", profile, i))
 				continue
 			}
 		case "syn":
